@@ -160,10 +160,14 @@ class CacheView(Table):
 
             # serve the remainder from the inner iterator
             it = iter(self.inner)
-            for row in islice(it, len(self.cache), None):
-                # maybe there's more room in the cache?
-                if not self.n or len(self.cache) < self.n:
+            i = len(self.cache)  # index of the next row from the inner table
+            for row in islice(it, i, None):
+                # maybe there's more room in the cache? (N.B., another
+                # iterator may have cached this row already)
+                if (not self.n or len(self.cache) < self.n) \
+                        and i == len(self.cache):
                     self.cache.append(row)
+                i += 1
                 yield row
 
             # does the cache contain a complete copy of the inner table?
